@@ -341,6 +341,7 @@ Step(st) ==
     [] f \in SubsFrames -> SubsStep(s0, fr)
     [] f \in MallFrames -> MallStep(s0, fr)
     [] f \in SchedFrames -> SchedStep(s0, fr)
+    [] f \in SchedFrames2 -> SchedStep2(s0, fr)
     [] OTHER -> Fault(s0, "spec:unknown-frame")
 
 RECURSIVE Run(_)
@@ -356,7 +357,7 @@ RECURSIVE HotCalls(_, _, _)
 HotCalls(slots, t, v) == MapCalls(slots, t, v)
 
 Inject(st, s) ==
-  LET st0 == [st EXCEPT !.log = <<>>, !.ret = U] IN
+  LET st0 == [st EXCEPT !.log = <<>>, !.ret = U, !.timerlog = <<>>] IN
   CASE s.k = "sub" ->            \* subscribe AST a with a fresh probe (reaction code b), keep the handle in slot t
          LET pid == st0.nprobe + 1
              pn == NextNode(st0)
@@ -394,7 +395,8 @@ Inject(st, s) ==
 Exec(st, s) == Run(Inject(st, s))
 
 (* what the harness can observe of one stimulus *)
-Obs(st) == [log |-> st.log, ret |-> st.ret, fault |-> st.fault, cnt |-> st.cnt]
+(* live = tasks the executor still holds; tm = the durations requested from the timer function by this stimulus *)
+Obs(st) == [log |-> st.log, ret |-> st.ret, fault |-> st.fault, cnt |-> st.cnt, live |-> LiveTasks(st), tm |-> st.timerlog]
 
 (* initial machine state with nSubj plain subjects, nBeh behavior subjects (initial value I(9)), nHotC create inputs *)
 RECURSIVE WithSubjects(_, _, _)
